@@ -82,6 +82,7 @@ type Exec struct {
 	ended   bool
 	endCh   chan string
 	End     string // done | deadlock | steps | diverged
+	Diverged string // why, when End == "diverged"
 	Panics  []string
 	Blocked []string // on deadlock: what each unfinished thread waits for
 	idle    int
@@ -209,6 +210,9 @@ func (x *Exec) end(reason string) {
 		return
 	}
 	x.ended = true
+	if x.Diverged != "" {
+		reason = "diverged"
+	}
 	x.End = reason
 	x.mu.Unlock()
 	x.endCh <- reason
@@ -377,10 +381,13 @@ func (x *Exec) choose(n int, kind, st string, costly bool, tid int) int {
 	return c
 }
 
+// diverged: replaying a recorded prefix met a different scheduling point than the run that
+// recorded it - some nondeterminism is not owned by the scheduler. That is a defect of the
+// machinery, never a finding about the code under test: the execution is not judged, the
+// explorer counts it and reports the exploration as capped (not exhaustive).
 func (x *Exec) diverged(msg string) {
-	x.Panics = append(x.Panics, "DIVERGED: "+msg)
-	if x.End == "" {
-		x.End = "diverged"
+	if x.Diverged == "" {
+		x.Diverged = msg
 	}
 }
 
